@@ -21,6 +21,8 @@ From NB Require Import Diff.Patch.
 From NB Require Import Gen.MergeFacts.
 From NB Require Import Diff.Wf Diff.StringProofs Diff.C01Proofs Gen.NbConfig.
 From NB Require Import Merge.MergeOnesidedList Merge.MergeListTotal Merge.MergeOnesidedObj.
+From NB Require Import Merge.MergeKeySym.
+From NB Require Import Merge.MergeDictSym.
 Import ListNotations.
 
 Notation decide O cfg St H :=
@@ -195,6 +197,79 @@ Theorem merge_symmetric_small_scope_nested_partial :
                 symmetric_on chunks_guard entry_eq_strict conflict_assert_strict b l r = true.
 Proof. exact symmetry_small_scope_nested. Qed.
 Print Assumptions merge_symmetric_small_scope_nested_partial.
+
+(* ---- side symmetry, unbounded (Merge/MergeKeySym.v, Merge/MergeDictSym.v) ----
+   objmeet base dl dr: base is an object and, wherever BOTH diffs patch the same key, the value there satisfies objmeet
+   with the two sub-diffs again -- the two sides meet only inside objects.  Nothing else is restricted: any values, any
+   one-sided or two-sided add / remove / replace entries, one-sided patches into lists and strings to any depth, any
+   transients table, any oracle, any hooks, either reading of the generated source facts.  With no strategy configured
+   (the property's setting: the verdict of the merge itself), exchanging local and remote makes decide_merge_with_diff
+   return exactly the same decisions with the sides exchanged: same paths, same order, same conflict flags (so the
+   same verdict), local_diff/remote_diff swapped and the action local<->remote; and it fails with the same error
+   exactly when the original order fails.  Proof follows _merge_dicts loop by loop: the dict-based diffs are key
+   sorted, so sorted(A ^ B) and sorted(A & B) do not depend on which side is A (dsorted_keys_ext); every builder call
+   commutes with the exchange because Python == and JSON identity on diff entries are symmetric (py_eqb_sym,
+   entry_eqb_sym, ...) and ensure_common_path treats the two sides alike (add_decision_swap); validated() sorts by
+   path only (validated_swap).  Still missing for the whole clause (hence _partial): sides meeting inside a list or a
+   multi-line string (the list merger), and the equality of the merged documents (see the refutation below: it fails
+   when the two sides agree only up to Python ==). *)
+Theorem merge_symmetric_objects_partial : forall O cfg St H base dl dr,
+  SortKey.st_table St = [] -> objmeet base dl dr ->
+  decide O cfg St H base dr dl = swap_decs (decide O cfg St H base dl dr).
+Proof. exact (fun O cfg St H => decide_objmeet_swap O cfg St H chunks_guard entry_eq_strict conflict_assert_strict). Qed.
+Print Assumptions merge_symmetric_objects_partial.
+
+(* the verdict itself *)
+Theorem merge_symmetric_objects_verdict : forall B, has_conflicted (map swap_dec B) = has_conflicted B.
+Proof. exact has_conflicted_swap. Qed.
+Print Assumptions merge_symmetric_objects_verdict.
+
+(* one layer, with the recursive call abstract: for a key of an object that BOTH sides changed (steps (4)-(8) of
+   _merge_dicts), given that the sub-merge the key makes is symmetric *)
+Theorem merge_symmetric_per_key_partial : forall St M rec base p B key ld rd,
+  merge_fn_sym M ->
+  SortKey.strat_get St (dspath p ++ 47%N :: key) = None ->
+  merge_key St entry_eq_strict conflict_assert_strict M rec base p (map swap_dec B) key rd ld
+  = swap_res (merge_key St entry_eq_strict conflict_assert_strict M rec base p B key ld rd).
+Proof. exact (fun St => merge_key_swap_gen St entry_eq_strict conflict_assert_strict). Qed.
+Print Assumptions merge_symmetric_per_key_partial.
+
+(* keys only one side changed: recording the one-sided decision commutes with exchanging the sides, whatever the diffs
+   (ensure_common_path pushes both orders down the same singleton patch chain: add_decision_swap) *)
+Theorem merge_symmetric_onesided_key : forall B p l r,
+  b_onesided (map swap_dec B) p r l = swap_res (b_onesided B p l r).
+Proof. exact b_onesided_swap. Qed.
+Print Assumptions merge_symmetric_onesided_key.
+
+(* non-vacuity: a nested document where both sides patch the same object key (and the sides then disagree on a leaf)
+   satisfies objmeet, and the merge of it is conflicted in both orders *)
+Example merge_symmetric_objects_example :
+  let a := of_ascii "a" in let x := of_ascii "x" in
+  let base := JObj [(a, JObj [(x, JInt 0)])] in
+  let dl := [DPatch (KS a) [DReplace (KS x) (JInt 1)]] in
+  let dr := [DPatch (KS a) [DReplace (KS x) (JInt 2)]] in
+  objmeet base dl dr
+  /\ exists d, decide_merge_with_diff O0 cfg0 no_strategies no_hooks chunks_guard entry_eq_strict conflict_assert_strict base dl dr = Ok [d]
+               /\ d_conflict d = true.
+Proof.
+  cbv zeta. split.
+  - constructor. intros key dl dr bv I1 I2 Eb.
+    destruct I1 as [I1|[]]. destruct I2 as [I2|[]]. inversion I1; subst. inversion I2; subst.
+    vm_compute in Eb. inversion Eb; subst.
+    constructor. intros key dl dr bv [I3|[]]. discriminate I3.
+  - eexists. split; vm_compute; reflexivity.
+Qed.
+
+(* non-vacuity: the hypothesis on the recursive call is met by a symmetric merge function, and a concrete two-sided
+   key (replace vs remove, nothing transient) yields the swapped conflicted decision *)
+Example merge_symmetric_per_key_example :
+  merge_key no_strategies false false (fun _ _ _ _ _ => Ok []) false [] [] [] (of_ascii "a")
+            (DReplace (KS (of_ascii "a")) (JInt 1)) (DRemove (KS (of_ascii "a")))
+  = swap_res (merge_key no_strategies false false (fun _ _ _ _ _ => Ok []) false [] [] [] (of_ascii "a")
+            (DRemove (KS (of_ascii "a"))) (DReplace (KS (of_ascii "a")) (JInt 1)))
+  /\ exists d, merge_key no_strategies false false (fun _ _ _ _ _ => Ok []) false [] [] [] (of_ascii "a")
+            (DReplace (KS (of_ascii "a")) (JInt 1)) (DRemove (KS (of_ascii "a"))) = Ok [d] /\ d_conflict d = true.
+Proof. split; [vm_compute; reflexivity | eexists; split; vm_compute; reflexivity]. Qed.
 
 (* ---- The two theorems below follow the generated source facts either way (no edit needed after a repair).
    On the current source (chunks_guard = GuardListTruthy, entry_eq_strict = false) they are REFUTATIONS:
